@@ -7,6 +7,7 @@
 #include "draco/animation/keyframe_animation.h"
 #include "draco/animation/keyframe_animation_encoder.h"
 #include "draco/compression/point_cloud/algorithms/float_points_tree_encoder.h"
+#include "draco/compression/config/encoding_features.h"
 #include "draco/core/encoder_buffer.h"
 #include "draco/mesh/triangle_soup_mesh_builder.h"
 #include "draco/metadata/geometry_metadata.h"
@@ -58,6 +59,7 @@ Json Workload::ToJson() const {
   j["sym_method"] = sym_method;
   j["track"] = track;
   if (legacy) j["legacy"] = legacy;
+  if (nofeat) j["nofeat"] = nofeat;
   return j;
 }
 
@@ -100,6 +102,7 @@ Workload Workload::FromJson(const Json &j) {
   w.sym_method = static_cast<int>(j.get("sym_method").Int(-1));
   w.track = static_cast<int>(j.get("track").Int());
   w.legacy = j.has("legacy") ? static_cast<int>(j.get("legacy").Int()) : 0;
+  w.nofeat = j.has("nofeat") ? static_cast<int>(j.get("nofeat").Int()) : 0;
   return w;
 }
 
@@ -259,6 +262,8 @@ Workload GenerateWorkload(Rng rng, int size_class, int force_kind) {
   if (w.expert) w.builtin = static_cast<int>(r.Range(-1, 1));
   w.sym_method = r.Chance(1, 6) ? static_cast<int>(r.Range(0, 1)) : -1;
   w.track = r.Chance(1, 4);
+  if (w.kind == 0 && r.Fork("nofeat").Chance(1, 8))
+    w.nofeat = r.Fork("nofeat-which").Chance(3, 4) ? 1 : 2;
   return w;
 }
 
@@ -789,6 +794,9 @@ void ApplyCommon(const Workload &w, OptT *opt, KeyFn key_is_set) {
   if (w.eb_method >= 0) opt->SetGlobalInt("edgebreaker_method", w.eb_method);
   if (w.sym_method >= 0)
     opt->SetGlobalInt("symbol_encoding_method", w.sym_method);
+  if (w.nofeat & 1)
+    opt->SetSupportedFeature(draco::features::kPredictiveEdgebreaker, false);
+  if (w.nofeat & 2) opt->SetSupportedFeature(draco::features::kEdgebreaker, false);
 }
 
 }  // namespace
